@@ -244,6 +244,11 @@ def obligations(tier):
         obs.append(Obligation(f"ingest-first={dup_kinds[k]}", c07.h_records, dict(nlines=3 if tier == "quick" else 4, kinds=dup_kinds, models="plain", drop=False, first=k), group="ingest", time_cap=1500, max_paths=100000))
     # --drop-water removes water records only: no other residue (RNA "A", hydroxide "OH", ...) vanishes with them (C07's harness)
     obs += c07._drop_name_obligations()
+    # every atom of the list handed to the printer is written, whatever the chain changes and the layout (C08's harness)
+    from . import c08
+
+    for n, ws, kc in ((2, True, True), (3, True, False), (3, False, True)) if tier == "quick" else [(n, ws, kc) for n in (2, 3) for ws in (False, True) for kc in (False, True)]:
+        obs.append(Obligation(f"atoms-written-n{n}-{'ws' if ws else 'fixed'}-{'kc' if kc else 'nokc'}", c08.h_atom_list, dict(n=n, ws=ws, kc=kc), group="atoms-written", time_cap=1200))
     # the carboxylic-acid optimisation ends with the atom set of the topology whatever sequence of attempts ran (C14's site harness)
     from . import c14
 
